@@ -163,7 +163,15 @@ def rand_case(rng, idx):
         counter[0] += 1
         child = Node(rng.choice(['blk%d.less', 'sub/blk%d.less']) % counter[0])
         child.items = [('unit', u) for u in rng.sample(['.n1{left:@w}', '.n2{color:@c; .n3{top:0}}', '.n4{.m;}', '&-x{top:0}'], rng.randrange(1, 3))]
-        root.items.insert(rng.randrange(len(root.items) + 1), ('block', rng.choice(['.blk', '@media print', '.o .p']), child))
+        pos = rng.randrange(len(root.items) + 1)
+        root.items.insert(pos, ('block', rng.choice(['.blk', '@media print', '.o .p']), child))
+        if rng.random() < 0.5:
+            # the same file once more, under another parent and (sometimes) after a redefinition: every import is evaluated where it stands
+            pos2 = rng.randrange(pos + 1, len(root.items) + 1)
+            if rng.random() < 0.5:
+                root.items.insert(pos2, ('unit', rng.choice(['@w: 9px;', '@c: green;'])))
+                pos2 += 1
+            root.items.insert(pos2, ('block', rng.choice(['.blk2', '.c .d', '@media screen']), child))
         kind = 'block'
     missing = None
     if rng.random() < 0.1:
